@@ -45,7 +45,9 @@ const prelude = `
 (set 'v (vector))
 (set 'm (sorted-map))
 (defun f () 0)
-(export 'pa)
+(defun call-thunks (&rest ts) (set 'pcalls (+ 1 (if (nil? (ignore-errors pcalls)) 0 pcalls))) (map 'list (lambda (t) (funcall t)) ts) 'done)
+(defun call2 (t1 t2) (funcall t1) (funcall t2) 'done)
+(export 'pa 'call-thunks 'call2)
 (in-package 'user)
 (set 'a 0)
 (set 'b 0)
@@ -109,6 +111,24 @@ var templates = []template{
 	}},
 	{name: "macro-expansion", render: func(es []string) string {
 		return "(macrolet ([mm () " + body(es) + " ''done]) (mm))"
+	}},
+	{name: "cross-package-multiform", render: func(es []string) string {
+		// a function DEFINED IN PACKAGE p with a multi-form body; the effects run in thunks created here (package user)
+		var sb strings.Builder
+		sb.WriteString("(p:call-thunks")
+		for _, e := range es {
+			sb.WriteString(" (lambda () " + e + " (snap))")
+		}
+		sb.WriteString(")")
+		return sb.String()
+	}},
+	{name: "cross-package-swallowed-then-more", render: func(es []string) string {
+		// the failing cross-package call is swallowed; what follows must still run in the caller's package
+		// (the swallowed call itself performs no effect, so the effect sequence stays linear)
+		var sb strings.Builder
+		sb.WriteString("(ignore-errors (p:call2 (lambda () (error 'always \"x\")) (lambda () 0))) ")
+		sb.WriteString(body(es))
+		return sb.String()
 	}},
 	{name: "tail-loop", loop: true, render: func(es []string) string {
 		return fmt.Sprintf("(labels ([lp (i) (if (>= i %d) 'done (progn %s (snap) (lp (+ i 1))))]) (lp 0))", len(es), first(es))
@@ -339,7 +359,8 @@ func (g *rig) apply(o op) opResult {
 		panic("harness: entry " + o.Entry)
 	}
 	res := opResult{out: el.Observe(v, g.env.Err.String()), steps: rt.Steps(), maxFrames: maxFrames, confirmed: g.confirmed}
-	res.inv = g.invariants(pkgBefore, isLoad)
+	_ = isLoad
+	res.inv = g.invariants(pkgBefore, true) // no template switches package at its own top level, so every entry point must leave it unchanged
 	rt.Stack.MaxHeightPhysical = std.MaxHeightPhysical
 	lisp.WithMaxSteps(0)(g.env.LEnv)
 	return res
@@ -611,7 +632,7 @@ func run(r *core.Run) {
 	r.Bound("templates", len(templates))
 	r.Bound("effects_per_operation", seqLen)
 	r.Bound("history_depth", depth)
-	r.Rule("explicit-state BFS over histories of top-level operations on one runtime. Operation = entry point x program template (12: top level, lambda call, let/labels, handler-bind body, inside a handler, ignore-errors, nested load-string with in-package, macro expansion time, tail loop, dotimes, map callback, foldl callback) x effect sequence over 7 effect kinds (set, set!, defun, assoc!, append!, export, use-package) x fault. " +
+	r.Rule("explicit-state BFS over histories of top-level operations on one runtime. Operation = entry point x program template (14: top level, lambda call, a multi-form function defined in another package calling thunks (also swallowed and followed by more effects), let/labels, handler-bind body, inside a handler, ignore-errors, nested load-string with in-package, macro expansion time, tail loop, dotimes, map callback, foldl callback) x effect sequence over 7 effect kinds (set, set!, defun, assoc!, append!, export, use-package) x fault. " +
 		"Depth 1: the COMPLETE fault space of every operation (no fault; ordinary host error and host panic at every host-call index; step budget at every n in 1..N; cancellation at every k in 1..N; physical height limit at every h in 1..H+1). " +
 		"Depth 2: from every distinct state reached (canonical state = list of cleanly completed effects + template and fault kind of the last operation) a second operation from a reduced alphabet under every entry point with boundary faults. A state/transition is non-trivial when the operation was faulted; distinct by (history, operation)")
 	r.Assume("an effect is confirmed when the host builtin (snap) that follows it returned normally; a failed run must be equivalent to the state after c or c+1 effects (the effect completed but its snap did not)")
